@@ -5,7 +5,7 @@ NOT_APPLICABLE = {
            "threads or multiprocessing symbolically, and a sequential stub would decide one schedule only (DESIGN §4 C13)",
 }
 ENGINES = [
-    {"name": "pysym", "path": "vf/pysym", "serves_properties": ["C17", "C07", "C06", "C09", "C10", "C12", "C04", "C18", "C08", "C15", "C01", "C14", "C16"],
+    {"name": "pysym", "path": "vf/pysym", "serves_properties": ["C17", "C07", "C06", "C09", "C10", "C12", "C04", "C18", "C08", "C15", "C01", "C14", "C16", "C03", "C19"],
      "kind_free_text": "bounded path-forking symbolic interpreter over the AST of the real py7zr sources (re-parsed "
                        "from /repo on every run), z3 bit-vectors / integers / ropes; solver verdict per path"},
 ]
@@ -23,6 +23,28 @@ WR_NOTE = ("codec libraries replaced by a contract stub (consumes the source, wr
            "abstraction; the independent reference reader/writer in /verif is the oracle; session shapes are an enumerated bound, "
            "all sizes/CRCs/timestamps symbolic; payload bytes and real codecs are outside")
 CHECKS = {
+    "C03": dict(engine=B, ref="DESIGN.md §4 C03",
+                technique="bounded symbolic execution of the real get_sanitized_output_path / is_path_valid / canonical_path / "
+                          "is_relative_to from the AST over symbolic path components; z3 decides lexical containment",
+                text="(1) for every member name of up to 5 (6) components over {'', '.', '..', a, b, 'c:', probe name} and an "
+                     "absolute destination or no destination (current directory): get_sanitized_output_path raises Bad7zFile or "
+                     "returns a path whose location, after lexical '..' resolution, is the destination or beneath it; (2) every "
+                     "link target of up to 4 (5) components that is_path_valid accepts resolves lexically inside the destination. "
+                     "Physical resolution through links created by earlier entries is NOT decided by these two obligations "
+                     "(see DESIGN.md: known finding, symlink chain).",
+                note="pathlib model validated against real PurePosixPath each run; alphabet/length are the bound; filesystem "
+                     "effects, races, Windows junctions outside"),
+    "C19": dict(engine=B, ref="DESIGN.md §4 C19",
+                technique="z3 strings/regular expressions generated from the live compiled pattern and dict (volume sizes) and bounded "
+                          "symbolic execution of the real Cli.run_test/run_extract from the AST against an archive stub failing at "
+                          "a symbolic point",
+                text="(1) every string of length <= 12 accepted by the live volume-size pattern converts without raising to "
+                     "digits x unit multiplier (1 without unit), and the forms the help describes are accepted; (2) run_test and "
+                     "run_extract return 0 only if the archive stub reported success; with a failure injected at open / "
+                     "archiveinfo / extractall / testzip (raising any of the library's exception classes, or testzip reporting a "
+                     "member) they return non-zero or let the exception escape.",
+                note="process exit status, argparse, printed text and the c/x/a tree round trips (delegated to the C02/C08 kernels) "
+                     "are outside; SevenZipFile, open, is_7zfile are stubs"),
     "C16": dict(engine=B, ref="DESIGN.md §4 C16",
                 technique="bounded symbolic execution of the real check_archive_path/is_path_valid/canonical_path/is_relative_to "
                           "and _sanitize_archive_arcname from the AST over symbolic path components / characters; z3 decides "
